@@ -1,6 +1,7 @@
 (* C01 -- requests reach the server exactly as issued, in Modbus wire format. *)
+From Coq Require Import Lia NArith.
 From TM Require Import Base Frame Pdu Crc RtuCodec TcpCodec Framed Client Server Spec PduEncode
-  FramedProofs TcpProofs RtuProofs RtuCarried StreamProofs ClientProofs Histories ServerProofs TypedProofs EndToEnd.
+  FramedProofs TcpProofs RtuProofs RtuCarried StreamProofs ClientProofs Histories ServerProofs TypedProofs EndToEnd Text Run Exchange.
 
 (* 1. the PDU encoder is the independent spec encoder (big-endian fields, coils LSB first in byte i/8) *)
 Theorem C01_pdu_is_spec : forall m r, req_ok r = true -> req_size r <= 253 ->
@@ -55,3 +56,31 @@ Theorem C01_server_delivers : forall p m fs is cs b rd tl svc w fuel,
   served p m is svc w (fun svc' w' =>
     process fuel p m (mkR [] false (match fs with [] => rd | _ => true end) false) w' tl svc').
 Proof. exact process_serves. Qed.
+
+(* 6. THE COMPOSED STATEMENT ([Exchange.v]; [e2e_chunked] = the client's call, the bytes it transmits cut into
+   read chunks by ANY chunker [k1] and handed to a server connection, the bytes that connection writes cut by ANY
+   chunker [k2] and handed back to the same call; `E2E` case lines run the single-chunk instance [e2e_exchange] on
+   the model and, over loopback sockets and a pty, on the implementation).  Whatever the service then does with the
+   request -- answer, fail, decline -- it has been invoked exactly once, with the client's slave id and an equal request. *)
+Theorem C01_exchange_delivers_request_answered : forall p m st r rsp k1 k2,
+  good_chunker k1 -> good_chunker k2 ->
+  idle st -> req_ok r = true -> req_size r <= 253 -> canonical_req r = true -> req_carried_by p r = true ->
+  rsp_ok rsp = true -> rsp_size rsp <= 253 -> canonical_rsp rsp = true -> rsp_carried_by p rsp = true ->
+  fc_value (rsp_fc rsp) = fc_value (req_fc r) ->
+  e2e_chunked p m st r [SReply rsp] k1 k2 = (CROk (pad_rsp rsp), [TCall (unit_id st) r], after p st r).
+Proof. exact exchange_response_any_fragmentation. Qed.
+Theorem C01_exchange_delivers_request_declined : forall p m st r,
+  idle st -> req_ok r = true -> req_size r <= 253 -> canonical_req r = true -> req_carried_by p r = true ->
+  exists st', e2e_exchange p m st false r [SDecline] = (inl CRWait, [TCall (unit_id st) r], st').
+Proof. exact exchange_declined. Qed.
+(* ... and so for every sequence of exchanges on one client context *)
+Theorem C01_exchange_sequences : forall p m xs st, idle st -> Forall (ok_exchange p) xs ->
+  exchanges p m st xs = map (fun x => (inl (expected (snd x)), [TCall (unit_id st) (fst x)])) xs.
+Proof. exact exchanges_correct. Qed.
+Example C01_exchange_ex : idle (client_new TCP 17) /\ good_chunker bytewise /\ good_chunker whole /\
+  ok_exchange TCP (ReqReadHoldingRegisters 7 2, AResp (RspReadHoldingRegisters [1; 2])) /\
+  ok_exchange RTU (ReqWriteSingleRegister 1 2, AExc (ex_new 3)).
+Proof.
+  split; [apply client_new_idle; lia|]. split; [exact bytewise_good|]. split; [exact whole_good|].
+  split; cbv; repeat split; congruence || lia.
+Qed.
